@@ -81,6 +81,7 @@ type Explorer struct {
 	orderHook   func(fr *frame, m *omap) []int
 	poolHook    func(fr *frame, pool *value) (value, bool)
 	poolPutHook func(fr *frame, pool *value, v value)
+	poolGotHook func(v value)
 
 	curModel map[string]uint64
 	evalMemo map[int]uint64
